@@ -232,7 +232,8 @@ def index_conversion(fn):
     raise KeyError("collect_cython call")
 
 
-PINNED_ROW_GUARD = "true"
+PINNED_ROW_PRE = "  let data := if ((!data.isDict) && true) then (PyDict.copy data) else data\n  data"
+PINNED_ROW_GUARD = "data.isDict"
 PINNED_ROW_PREPARE = "  let data := if (!data.exact) then (PyDict.copy data) else data\n  data"
 
 _DICT_TYPE_IS = ("type(data) is dict", "type(data) == dict", "data.__class__ is dict", "dict is type(data)")
@@ -304,9 +305,24 @@ def _dict_test(t):
         return "data.exact"
     if text in _DICT_TYPE_ISNOT:
         return "(!data.exact)"
-    if text in ("isinstance(data, dict)", "isinstance(data, MutableMapping)", "isinstance(data, Mapping)", "isinstance(data, (dict, MutableMapping))",
-                "isinstance(data, collections.abc.MutableMapping)", "isinstance(data, collections.abc.Mapping)"):
-        return "true"
+    if isinstance(t, ast.Call) and isinstance(t.func, ast.Name) and t.func.id == "isinstance" and len(t.args) == 2 and not t.keywords \
+            and ast.unparse(t.args[0]) == "data":
+        # the argument is a dictionary or another Mapping (never a tuple or a list: those are `RowArg.tuple`)
+        kinds = t.args[1].elts if isinstance(t.args[1], ast.Tuple) else [t.args[1]]
+        parts = []
+        for k in kinds:
+            name = ast.unparse(k)
+            if name == "dict":
+                parts.append("data.isDict")
+            elif name in ("tuple", "list"):
+                pass
+            elif name in ("Mapping", "collections.abc.Mapping", "abc.Mapping", "typing.Mapping"):
+                parts.append("true")
+            elif name in ("MutableMapping", "collections.abc.MutableMapping", "abc.MutableMapping", "typing.MutableMapping"):
+                parts.append("data.mutable")
+            else:
+                raise KeyError("isinstance against an unknown type: " + name[:30])
+        return "false" if not parts else parts[0] if len(parts) == 1 else "(" + " || ".join(parts) + ")"
     if isinstance(t, ast.Name) and t.id == "data":
         return "(!data.items.isEmpty)"
     if isinstance(t, ast.UnaryOp) and isinstance(t.op, ast.Not):
@@ -334,17 +350,23 @@ def row_glue(tree):
     others = [c for c in ast.walk(fn) if isinstance(c, ast.Call) and isinstance(c.func, ast.Name) and c.func.id == "extract_dict_columns"]
     if len(others) != 1 or [ast.unparse(a) for a in others[0].args] != ["data", "cls._fields"] or others[0].keywords:
         raise KeyError("extract_dict_columns(data, cls._fields), once")
+    pre = []
     for st in fn.body:
         if st is g:
             break
-        if not (isinstance(st, ast.Expr) and isinstance(st.value, ast.Constant)):
-            raise KeyError("a statement in front of the dictionary test: " + ast.unparse(st)[:40])
+        pre.append(st)
     guard = _dict_test(g.test)
-    lines = []
     last = g.body[-1]
     if not (isinstance(last, ast.Assign) and ast.unparse(last) == "data = extract_dict_columns(data, cls._fields)"):
         raise KeyError("the branch does not end with data = extract_dict_columns(data, cls._fields)")
-    for st in g.body[:-1]:
+    return [guard, _glue_body(g.body[:-1], "statement before the helper call"), _glue_body(pre, "a statement in front of the dictionary test")]
+
+
+def _glue_body(stmts, what):
+    """Statements that rebind `data` (`data = <expr>`, `if <test>: data = <expr> [else: data = <expr>]`) as the body of a
+    Lean function `PyDict α → PyDict α`."""
+    lines = []
+    for st in stmts:
         if isinstance(st, ast.Expr) and isinstance(st.value, ast.Constant):
             continue
         if isinstance(st, ast.Assign) and [ast.unparse(t) for t in st.targets] == ["data"]:
@@ -354,11 +376,11 @@ def row_glue(tree):
             other = _dict_expr(st.orelse[0].value) if st.orelse else "data"
             lines.append("let data := if %s then %s else %s" % (_dict_test(st.test), _dict_expr(st.body[0].value), other))
         else:
-            raise KeyError("statement before the helper call: " + ast.unparse(st)[:40])
-    return [guard, "".join("  %s\n" % l for l in lines) + "  data"]
+            raise KeyError(what + ": " + ast.unparse(st)[:40])
+    return "".join("  %s\n" % l for l in lines) + "  data"
 
 
-PINNED_APPEND_PREPARE = "  let data := if (true && (!data.exact)) then (PyDict.copy data) else data\n  data"
+PINNED_APPEND_PREPARE = "  let data := if (data.mutable && (!data.exact)) then (PyDict.copy data) else data\n  data"
 
 
 def append_glue(tree):
@@ -574,7 +596,7 @@ def generate(o):
     kl = o.item("site.collect.kernel_limit", lambda: kernel_limit(fn_collect()), "limit")
     si = o.item("site.collect.single_index", lambda: single_index(fn_collect()), 0)
     ic = o.item("site.collect.index_conversion_checked", lambda: index_conversion(fn_collect()), True)
-    rg = o.item("site.row.glue", lambda: row_glue(Src("orso/row.py").tree), [PINNED_ROW_GUARD, PINNED_ROW_PREPARE])
+    rg = o.item("site.row.glue", lambda: row_glue(Src("orso/row.py").tree), [PINNED_ROW_GUARD, PINNED_ROW_PREPARE, PINNED_ROW_PRE])
     ag = o.item("site.append.glue", lambda: append_glue(df.tree), PINNED_APPEND_PREPARE)
     ml = o.item("site.display.measure_limit", lambda: display_measure_limit(disp.tree), "none")
     mr = o.item("site.display.measure_refs", lambda: display_measure_refs(disp.tree), PINNED_REFS)
@@ -613,8 +635,10 @@ def generate(o):
                "as a function of the dictionary the caller gave. -/\n")
     header += "set_option linter.unusedVariables false\nopen PyDictM\nnamespace Gen.DictGlue\nvariable {α : Type}\n\n"
 
-    def defs(guard, prepare):
-        d = "/-- Row.__new__: the test that sends `data` to the helper (`isinstance(data, dict)`: every dictionary) -/\n"
+    def defs(guard, prepare, pre):
+        d = "/-- Row.__new__: the statements in front of the dictionary test (a Mapping that is no dict is copied into one) -/\n"
+        d += "def rowPre (data : PyDict α) : PyDict α :=\n%s\n" % pre
+        d += "/-- Row.__new__: the test that sends `data` to the helper (`isinstance(data, dict)`) -/\n"
         d += "def rowGuard (data : PyDict α) : Bool := %s\n" % guard
         d += "/-- Row.__new__: the statements between that test and `extract_dict_columns(data, cls._fields)` -/\n"
         d += "def rowPrepare (data : PyDict α) : PyDict α :=\n%s\n" % prepare
@@ -625,9 +649,9 @@ def generate(o):
         d += "def appendPrepare (data : PyDict α) : PyDict α :=\n%s\n" % prepare
         return d
 
-    pinned = {"glue": defs(PINNED_ROW_GUARD, PINNED_ROW_PREPARE), "append": adefs(PINNED_APPEND_PREPARE)}
+    pinned = {"glue": defs(PINNED_ROW_GUARD, PINNED_ROW_PREPARE, PINNED_ROW_PRE), "append": adefs(PINNED_APPEND_PREPARE)}
     try:
-        text, bad = pystmt.compile_checked(header, [("glue", defs(rg[0], rg[1])), ("append", adefs(ag))], "\nend Gen.DictGlue\n", pinned, core.LEAN, "DictGlue")
+        text, bad = pystmt.compile_checked(header, [("glue", defs(rg[0], rg[1], rg[2])), ("append", adefs(ag))], "\nend Gen.DictGlue\n", pinned, core.LEAN, "DictGlue")
     except Exception as e:
         text, bad = header + pinned["glue"] + "\n" + pinned["append"] + "\nend Gen.DictGlue\n", ["glue (%s)" % type(e).__name__]
     for k in bad:
